@@ -198,7 +198,7 @@ func (s *Solver) Assert(t *Term) {
 func (s *Solver) Check() Result {
 	start := time.Now()
 	s.send("(check-sat)")
-	line, err := s.readLine(time.Duration(s.timeoutMs)*time.Millisecond + 5*time.Second)
+	line, err := s.readLine(time.Duration(s.timeoutMs)*time.Millisecond + 2*time.Second)
 	atomic.AddInt64(&s.Stats.Queries, 1)
 	atomic.AddInt64(&s.Stats.Nanos, int64(time.Since(start)))
 	if err != nil {
